@@ -177,6 +177,11 @@ def check(case, out):
     out.nontrivial = (m > n and nonzero) or rep
     klass = kind + (";square" if m == n else ";overdetermined") + (";default-nodes" if call_nodes is None else "")
     scale = max([abs(x) for z in Zf for x in z] + [F(1)])
+    if not exact and max(abs(x) for q in Q for x in q) > 1000 * scale:
+        # control points three orders above the data: the float solve is ill-conditioned, outside the
+        # "well-conditioned inputs" the float clause speaks about
+        out.exclude("float-profile:ill-conditioned(|Q| >> |Z|)")
+        return
     tol = F(0) if exact else F(1, 10 ** 8) * scale
     for i in range(n):
         for c in range(d):
